@@ -155,9 +155,16 @@ func (sp *simProc) genBatch(classified string, seed uint64, tier string, bn int,
 	if sp.b.Instr != nil && sp.b.Instr.Seams["gc_lifetime"] > 0 {
 		args = append(args, "-lifetimes")
 	}
-	if bn%8 == 7 {
+	if bn%16 == 15 {
 		// soak batch: 50 runs in one process, all on one ecosystem
-		args = append(args, "-soak", strconv.Itoa(bn/8))
+		// every third soak batch is a VERS soak (index 20 of 21), the others
+		// walk through the ecosystems
+		n := bn / 16
+		if n%3 == 2 {
+			args = append(args, "-soak", "20")
+		} else {
+			args = append(args, "-soak", strconv.Itoa((n-n/3)%20))
+		}
 	}
 	po := runProc(5*time.Minute, goEnv(""), sp.b.SimPlain, args...)
 	if po.err != nil {
@@ -250,7 +257,13 @@ func writeBatch(path string, b *Batch) {
 // refReverse evaluates the cases of file `in` in reverse order in a fresh
 // uninstrumented process.
 func (sp *simProc) refReverse(in, out string) {
-	po := runProc(5*time.Minute, goEnv(""), sp.b.SimPlain, "ref", "-reverse", "-in", in, "-out", out)
+	env := goEnv("")
+	if sp.b.Instr != nil && sp.b.Instr.Seams["gc_lifetime"] > 0 {
+		// collect as often as possible in this process: lifetime-dependent state
+		// (cleanups, weak pointers) then differs from the forward evaluation
+		env = append(env, "GOGC=1")
+	}
+	po := runProc(5*time.Minute, env, sp.b.SimPlain, "ref", "-reverse", "-in", in, "-out", out)
 	if po.err != nil {
 		fail2("reverse-order reference evaluator failed: %v\n%s", po.err, tail(po.stderr, 4000))
 	}
@@ -676,7 +689,14 @@ func checkIn(cfg checkCfg, scratch string, t0 time.Time) int {
 		}
 		dwg.Wait()
 	}
-	if len(detMismatch) > 0 && len(ag.violations) == 0 {
+	lifetimes := b.Instr.Seams["gc_lifetime"] > 0
+	if len(detMismatch) > 0 && lifetimes {
+		// The tree uses finalizers / cleanups / weak pointers / unique handles: what
+		// the collector has or has not yet freed is outside the simulator's control,
+		// so step counts may differ between two executions of one seed. Results are
+		// still checked against the reference in every execution.
+		fmt.Printf("vsim: note: %d re-executed runs had a different event log; tolerated because the tree's behaviour depends on garbage-collection timing (gc_lifetime seam)\n", len(detMismatch))
+	} else if len(detMismatch) > 0 && len(ag.violations) == 0 {
 		fail2("determinism self-check failed (harness fault, or the tree under test consults an unseamed source of nondeterminism): %s", strings.Join(detMismatch[:min(5, len(detMismatch))], "; "))
 	}
 	fmt.Printf("vsim: determinism spot check: %d re-executed runs, %d event-log mismatches\n", detChecked, len(detMismatch))
